@@ -50,7 +50,8 @@ fn main() {
     let rest = &args[2..];
     let tier = parse_tier(rest);
     let replay = zvcore::evidence::arg_value(rest, "--replay");
-    let code = match id.as_str() {
+    // a panic of check code itself (not of library code under a guard) is a machinery failure: exit 2, no verdict
+    let code = std::panic::catch_unwind(std::panic::AssertUnwindSafe(|| match id.as_str() {
         "C01" => c01::run(tier, replay),
         "C02" => c02::run(tier, replay),
         "C03" => c03::run(tier, replay),
@@ -103,6 +104,12 @@ fn main() {
             eprintln!("unknown property id {}", other);
             2
         }
-    };
+    }))
+    .unwrap_or_else(|p| {
+        let msg = p.downcast_ref::<String>().cloned().or_else(|| p.downcast_ref::<&str>().map(|s| s.to_string())).unwrap_or_default();
+        eprintln!("MACHINERY: the check's own code panicked ({}); no verdict", msg);
+        println!("{}: machinery failure (the check's own code panicked); no verdict", id);
+        2
+    });
     std::process::exit(code);
 }
